@@ -49,6 +49,8 @@ type Params struct {
 	MutBit  int  // bit index inside the mutated region (mut != none), taken modulo the region size
 	AltBit  int  // for *Alter = memberBit: -1 = the canonical harmless digit flip; else bit index modulo member size
 	WallNow bool // true: validity windows are centred on the wall clock (for Options.Now == nil runs)
+	// LeafExpiresIn (WallNow only): the PCK leaf's notAfter is that far in the future instead of a year away
+	LeafExpiresIn time.Duration
 }
 
 // Concrete is everything the drivers need to run one world against the real code.
@@ -183,7 +185,9 @@ func Build(w World, p Params) *Concrete {
 	for _, n := range ClockNames {
 		c.Clocks[n] = t0
 	}
-	if tv := w.Get("time"); tv != "none" {
+	if p.WallNow && p.LeafExpiresIn > 0 {
+		win["leaf"] = window{farNB, t0.Add(p.LeafExpiresIn)}
+	} else if tv := w.Get("time"); tv != "none" {
 		if p.WallNow {
 			c.Unrealizable = "time dimension needs explicit clocks"
 			return c
